@@ -355,7 +355,7 @@ def drop_utc_offsets(rows):
     (the reader model has no strict_types switch): such cases are kept offset-free"""
     import re
     global _TZ
-    _TZ = _TZ or re.compile(r"^(\s*\d{4}-\d{1,2}-\d{1,2}[T ][\d:.]+?)(Z|z|[+-]\d{2}:\d{2})(\s*)$")
+    _TZ = _TZ or re.compile(r"^(\s*\d{4}-\d{1,2}-\d{1,2}[T ][\d:.]+?)(Z|z|UTC|[+-]\d{2}(?::?\d{2})?)(\s*)$")
     return [[_TZ.sub(r"\1\3", c) if isinstance(c, str) else c for c in r] for r in rows]
 
 
